@@ -83,6 +83,11 @@ class _StdApi:
         self.is_graal = variant == GRAAL
         self.hasconst = opc.hasconst
         self.hasname = opc.hasname
+        self.hasjrel = opc.hasjrel
+        self.hasjabs = opc.hasjabs
+        self.haslocal = opc.haslocal
+        self.hascompare = opc.hascompare
+        self.hasfree = opc.hasfree
         self.opmap = opc.opmap
         self.opname = opc.opname
         self.EXTENDED_ARG = opc.EXTENDED_ARG
@@ -285,6 +290,11 @@ _std_api = make_std_api()
 
 hasconst = _std_api.hasconst
 hasname = _std_api.hasname
+hasjrel = _std_api.hasjrel
+hasjabs = _std_api.hasjabs
+haslocal = _std_api.haslocal
+hascompare = _std_api.hascompare
+hasfree = _std_api.hasfree
 opmap = _std_api.opmap
 opname = _std_api.opname
 EXTENDED_ARG = _std_api.EXTENDED_ARG
